@@ -114,7 +114,40 @@ Definition key_from_sec (sec : bytes) : outcome ((Z * Z) * bool) :=
   do pr2 <- key_public pr;
   Ret (pr2, is_sec_compressed sec).
 
+(* ---- the public_pair argument as Key.__init__ really receives it ------------------------------
+   Any 2-sequence is taken: a tuple, a list, or a pycoin.ecdsa Point object (a tuple subclass that
+   carries a reference to ITS OWN curve and was tested against that curve when it was built; e*G and
+   the point at infinity (None, None) are Points).  Key.__init__ does
+       if (None in pair) or not generator.contains_point(x, y): raise InvalidPublicPairError
+       if not (0 <= pair[0] < p and 0 <= pair[1] < p):           raise InvalidPublicPairError
+   against the KEY's generator: the carrier is never consulted. *)
+Inductive presentation : Set :=
+| Pr_tuple
+| Pr_list
+| Pr_point (cp ca cb : Z).          (* a Point object of the curve y^2 = x^3 + ca*x + cb over F_cp *)
+
+Record pair_arg : Set := { pa_kind : presentation; pa_x : option Z; pa_y : option Z }.
+
+Definition key_public_arg (pa : pair_arg) : outcome (Z * Z) :=
+  match pa_x pa, pa_y pa with
+  | Some x, Some y => key_public (x, y)
+  | _, _ => Raise E_PUBPAIR                          (* None in self._public_pair *)
+  end.
+
 End Curve.
+
+(* the invariant a Point object satisfies by construction (Point.__init__ -> check_on_curve):
+   it is the point at infinity or lies on the curve it carries *)
+Definition point_wf (pa : pair_arg) : Prop :=
+  match pa_kind pa with
+  | Pr_point cp ca cb =>
+    match pa_x pa, pa_y pa with
+    | Some x, Some y => contains_point cp ca cb x y = true
+    | None, None => True
+    | _, _ => False
+    end
+  | _ => True
+  end.
 
 (* Key(secret_exponent=e): the range test of Key.__init__ against generator.order().  The public pair
    e*G that the constructor then computes (and re-tests for curve membership) is C02's subject. *)
